@@ -7,4 +7,4 @@ CONSTANTS
   FE = 3
 SPECIFICATION PairSpec
 CHECK_DEADLOCK FALSE
-INVARIANTS StepMeaning PrefixOrder PrefixSeparate FloatInvolution FloatMonotone FloatDigits FloatEdges
+INVARIANTS StepMeaning PrefixOrder PrefixFast PrefixSeparate FloatInvolution FloatMonotone FloatDigits FloatEdges
